@@ -43,9 +43,9 @@ import (
 
 	"github.com/IrineSistiana/mosproxy/app/router"
 	"github.com/IrineSistiana/mosproxy/internal/mlog"
-	"github.com/rs/zerolog"
 	"github.com/miekg/dns"
 	"github.com/quic-go/quic-go"
+	"github.com/rs/zerolog"
 )
 
 func c17nullLogger() *log.Logger { return log.New(io.Discard, "", 0) }
